@@ -11,13 +11,20 @@ a plain dictionary model of the DATA (key -> the file column / in-memory series 
 clear / update / copy) against every series returned, iterated or cached; a second family of histories on one file of each of the
 ten readable formats with multi-series requests (names, full keys, register indices) in an order different from the order on
 file, through every container API, on fresh / partly cached databases.
+Binding (stream `db.bind`): every history of both families is also run through the Lean content-binding model
+`Qats.Binding.step` (theorems `binding_*`, `getm_returns_registered`, `rename_keeps_record` of Props/C08.lean), which predicts per
+operation, for every returned series and for every key of both databases, the registered record (file, record number, name on
+file | added series no.) and the root origin of the object (record number of an index-addressed file / data set name of a
+name-addressed file / added series / resolved through deep copies).  The prediction is compared (i) with the harness's plain
+dictionary model and (ii) with the implementation: the generated files carry unique values per record, so the data actually
+returned / cached / read after the history identifies the record.
 """
 import os
 
 import numpy as np
 
 from .. import core
-from ..dbutil import Files, digest, err_enum, hx, hxlist, renumber
+from ..dbutil import Files, digest, err_enum, hx, hxlist, renumber, unhx
 
 RULE = ("seeded histories of 3-14 operations over a weighted alphabet favouring multi-step patterns (load twice, copy then inspect, "
         "update with a late clash, rename then read / then iterate, clear by pattern) on 7 generated files (.pkl x3, .ts, .csv, .tda, "
@@ -26,7 +33,9 @@ RULE = ("seeded histories of 3-14 operations over a weighted alphabet favouring 
         "starts with one or two lazy loads; thorough adds all histories of length <= 3 over a fixed 18-letter alphabet; "
         "second family: per format (all ten) histories on one synthesised file of 3-5 series: load, multi-series "
         "getm/getd/getl/getda by shuffled names / full keys / index lists, get, copy and update into a fresh database, iterate, "
-        "clear, rename (index-addressed formats), store on/off; non-trivial = history with at least one successful mutation and "
+        "clear, rename (index-addressed formats), store on/off; every history of both families is also run through the Lean "
+        "binding model (db.bind: per operation the registered record and the root origin of every returned / cached series, and of "
+        "every series read after the history); non-trivial = history with at least one successful mutation and "
         "one rejected operation or cache interaction, or (second family) a multi-series request out of file order; distinct by history")
 
 # (relative path, names in file order); the extension selects the format.  All are index-addressed formats: name-addressed ones
@@ -68,7 +77,7 @@ def truth(prov):
         t = np.arange(NSAMP, dtype=float)
         return t, 100.0 * (prov[1] + 1) + 10.0 * prov[2] + t
     t = np.arange(3.0)
-    return t, t * 2
+    return t, t * 2 + 1000.0 * (prov[1] if len(prov) > 1 else 0)
 
 
 def near(a, b, tol):
@@ -83,8 +92,124 @@ def same_data(ts, prov):
 
 
 def describe(prov):
-    return "in-memory series (t=0..2, x=2t)" if prov[0] != "file" else "column %d (%r) of %s: x=%s" % (
+    return "in-memory series no. %d (t=0..2, x=2t+1000*%d)" % ((prov[1] if len(prov) > 1 else 0,) * 2) if prov[0] != "file" else "column %d (%r) of %s: x=%s" % (
         prov[2], FILES[prov[1]][1][prov[2]], FILES[prov[1]][0], list(map(float, truth(prov)[1])))
+
+
+# ----------------------------------------------------------------------------------------------------------
+# content binding: canonical texts shared with Qats.Driver.Names (`db.bind`)
+#   record  F:<hex file>:<record no.>:<hex name on file> | M:<n>        (n-th successfully added in-memory series)
+#   origin  R:<hex file>:<record no.> | N:<hex file>:<hex name> | M:<n> ; "~" + origin = not cached, what a read will construct
+# ----------------------------------------------------------------------------------------------------------
+def prov_rec(prov, paths):
+    if prov is None:
+        return "?"
+    if prov[0] == "file":
+        return "F:%s:%d:%s" % (hx(paths[prov[1]]), prov[2] + 1, hx(FILES[prov[1]][1][prov[2]]))
+    return "M:%d" % (prov[1] if len(prov) > 1 else 0)
+
+
+def prov_origin(prov, paths):
+    """all files of the first family are index-addressed"""
+    if prov is None:
+        return "?"
+    return "R:%s:%d" % (hx(paths[prov[1]]), prov[2] + 1) if prov[0] == "file" else "M:%d" % (prov[1] if len(prov) > 1 else 0)
+
+
+def identify(ts, paths):
+    """which record do the DATA of this series come from (first family: value = 100*(file+1) + 10*column + sample; in-memory
+    series no. n: 2t + 1000n); '?' if the data are no record at all"""
+    try:
+        x = np.asarray(ts.x, dtype=float)
+        if x.size == 0:
+            return "?"
+        v = float(x[0])
+        if x.size == 3:
+            prov = ("mem", int(round(v / 1000.0)))
+        else:
+            i, j = int(v // 100) - 1, int((v % 100) // 10)
+            if not (0 <= i < len(FILES) and 0 <= j < len(FILES[i][1])):
+                return "?"
+            prov = ("file", i, j)
+        return prov_origin(prov, paths) if same_data(ts, prov) else "?"
+    except Exception:
+        return "?"
+
+
+def parse_bind(reply):
+    """reply of `db.bind` -> per operation dict(out = str | [(key, origin)], A = [(key, record, origin)], B = ...) (keys hex)"""
+    if not reply or not reply.startswith("ok "):
+        return None
+    recs = []
+    for part in reply[3:].split(" ; "):
+        out, a, b = [z.strip() for z in part.split(" # ")]
+        if out.startswith("series"):
+            body = out[6:].strip()
+            out = [] if body in ("=", "") else [tuple(kv.split("=", 1)) for kv in body.split(",")]
+        dbs = []
+        for d in (a, b):
+            rows = []
+            if d not in ("=", ""):
+                for kv in d.split(","):
+                    k, v = kv.split("=", 1)
+                    rec, ori = v.split("|", 1)
+                    rows.append((k, rec, ori))
+            dbs.append(rows)
+        recs.append(dict(out=out, A=dbs[0], B=dbs[1]))
+    return recs
+
+
+def diff_bind(L, I):
+    """first difference between the Lean prediction L and the observation I of one operation:
+    (stream, what, model, observed) or None.  Registered records and the origin a read WILL construct are the dictionary
+    model's (stream db.bind:dict); returned and cached data are the implementation's (stream db.bind)."""
+    if isinstance(L["out"], list) or isinstance(I["out"], list):
+        if L["out"] != I["out"]:
+            return ("db.bind", "returned series (key=origin of the data)", L["out"], I["out"])
+    elif I["out"] is not None and L["out"] != I["out"]:
+        return ("db.bind", "outcome", L["out"], I["out"])
+    for w in ("A", "B"):
+        if I.get(w) is None:
+            continue
+        if [r[0] for r in L[w]] != [r[0] for r in I[w]]:
+            return ("db.bind", "keys of " + w, [unhx(r[0]) for r in L[w]], [unhx(r[0]) for r in I[w]])
+        for (k, lrec, lori), (_, irec, iori) in zip(L[w], I[w]):
+            if irec is not None and lrec != irec:
+                return ("db.bind:dict", "registered record of %s in %s" % (unhx(k), w), lrec, irec)
+            if lori.startswith("~") != iori.startswith("~"):
+                return ("db.bind", "cache state of %s in %s" % (unhx(k), w), lori, iori)
+            if lori != iori:
+                return ("db.bind:dict" if lori.startswith("~") else "db.bind",
+                        ("origin the next read of %s in %s constructs" if lori.startswith("~") else "origin of the data cached under %s in %s")
+                        % (unhx(k), w), lori, iori)
+    return None
+
+
+def compare_bind(lean, impl, chk, inp, opmap=None):
+    """Lean binding prediction (parsed `db.bind` reply) against the observation, operation by operation; at most one
+    disagreement per stream and history.  `opmap[n]` = the Lean operations that model observed operation n (default: n).
+    Returns the prediction after the last compared operation (for the reads that follow the history)."""
+    chk.count("db.bind")
+    if lean is None:
+        chk.disagree("db.bind", inp, "a reply of the binding model", "no reply")
+        return None
+    seen = set()
+    last = None
+    for n, I in enumerate(impl):
+        idx = opmap[n] if opmap is not None else [n]
+        if not idx or idx[-1] >= len(lean):
+            chk.disagree("db.bind", dict(inp, first_difference_at_op=n), "one reply per operation", "%d replies" % len(lean))
+            return last
+        L = lean[idx[-1]]
+        if len(idx) > 1:            # one observed request modelled by several retrievals: their series in a row
+            L = dict(L, out=[kv for i in idx for kv in (lean[i]["out"] if isinstance(lean[i]["out"], list) else [])])
+        last = L
+        chk.count("db.bind:op")
+        d = diff_bind(L, I)
+        if d is not None and d[0] not in seen:
+            seen.add(d[0])
+            chk.disagree(d[0], dict(inp, first_difference_at_op=n, what=d[1]), d[2], d[3])
+    return last
 
 
 def gen_names(rng):
@@ -137,7 +262,7 @@ def nameslist(x):
     return None if x is None else (list(x) if isinstance(x, (list, tuple)) else [x])
 
 
-def encode(ops, paths):
+def encode(ops, paths, head="db.run"):
     toks = []
     for op in ops:
         k = op[0]
@@ -158,7 +283,7 @@ def encode(ops, paths):
             toks.append("geti %s %d %d" % (op[1], op[2], op[3]))
         elif k == "iter":
             toks.append("getm %s none 1" % op[1])       # registry effect of `for ts in db` (each key: get(name=key), store on)
-    return "db.run " + " ; ".join(toks)
+    return head + " " + " ; ".join(toks)
 
 
 def coherent(db):
@@ -198,10 +323,11 @@ def iteration(db):
 def execute(ops, paths, chk=None, inp=None):
     from qats import TsDB, TimeSeries
     A, B = TsDB(), TsDB()
-    ids, keep, recs = {}, [], []
+    ids, keep, recs, brecs = {}, [], [], []
     exp = {"A": {}, "B": {}}           # plain dictionary model of the data: key -> provenance
     t = np.arange(3.0)
     reported = set()
+    nadd = 0                           # in-memory series are numbered by successful add (their data carry the number)
 
     def check_data(w, key, ts, how, upto):
         prov = exp[w].get(key)
@@ -217,6 +343,7 @@ def execute(ops, paths, chk=None, inp=None):
         db = lambda w: A if w == "A" else B
         k = op[0]
         snap = None
+        bout = None                    # binding: (key, record the returned DATA identify) of every series returned
         upto = len(recs) + 1
         before = {"A": list(A.register_keys), "B": list(B.register_keys)}
         try:
@@ -228,13 +355,14 @@ def execute(ops, paths, chk=None, inp=None):
                     exp[op[1]][os.path.join(paths[op[2]], nm)] = ("file", op[2], j)
             elif k == "add":
                 snap = (op[1], snapshot(db(op[1])))
-                ts = TimeSeries(op[2], t, t * 2)
+                ts = TimeSeries(op[2], t, t * 2 + 1000.0 * nadd)
                 keep.append(ts)
                 db(op[1]).add(ts)
                 out = "done"
                 new = [kk for kk in db(op[1]).register_keys if kk not in before[op[1]]]
                 if len(new) == 1:
-                    exp[op[1]][new[0]] = ("mem",)
+                    exp[op[1]][new[0]] = ("mem", nadd)
+                nadd += 1
             elif k == "rename":
                 snap = (op[1], snapshot(db(op[1])))
                 db(op[1]).rename(op[2], op[3])
@@ -270,12 +398,14 @@ def execute(ops, paths, chk=None, inp=None):
                                  clause="store-true")
                 for kk, v in c.items():
                     check_data(op[1], kk, v, "returned by getm", upto)
+                bout = [(hx(kk), identify(v, paths)) for kk, v in c.items()]
                 out = "series " + ",".join("%s=o%d" % (hx(kk), ids.setdefault(id(v), len(ids))) for kk, v in c.items())
             elif k == "geti":
                 c = db(op[1]).getm(ind=op[2], store=op[3], fullkey=True)
                 keep.extend(c.values())
                 for kk, v in c.items():
                     check_data(op[1], kk, v, "returned by getm(ind)", upto)
+                bout = [(hx(kk), identify(v, paths)) for kk, v in c.items()]
                 out = "series " + ",".join("%s=o%d" % (hx(kk), ids.setdefault(id(v), len(ids))) for kk, v in c.items())
             elif k == "iter":
                 ks, items, probs = iteration(db(op[1]))
@@ -284,6 +414,7 @@ def execute(ops, paths, chk=None, inp=None):
                     chk.count("oracle:iteration")
                     if probs:
                         chk.fail(T_COHERENT, dict(inp, upto=upto, db=op[1]), "iteration = listing order", probs, clause="iteration")
+                bout = [(hx(kk), identify(v, paths)) for kk, v in zip(ks, items)]
                 out = "series " + ",".join("%s=o%d" % (hx(kk), ids.setdefault(id(v), len(ids))) for kk, v in zip(ks, items))
         except Exception as e:
             out = err_enum(e)
@@ -301,13 +432,20 @@ def execute(ops, paths, chk=None, inp=None):
                 for kk, v in list(d.register.items()):
                     check_data(w, kk, v, "cached in the register", upto)
         recs.append("%s # %s # %s" % (out, digest(A, ids), digest(B, ids)))
-    return "ok " + " ; ".join(recs), (A, B, keep, exp)
+        brecs.append(dict(out=bout if bout is not None else out, **{
+            w: [(hx(kk), prov_rec(exp[w].get(kk), paths),
+                 identify(d.register[kk], paths) if d.register.get(kk) is not None else "~" + prov_origin(exp[w].get(kk), paths))
+                for kk in d.register_keys] for w, d in (("A", A), ("B", B))}))
+    return "ok " + " ; ".join(recs), (A, B, keep, exp, brecs, paths)
 
 
-def final_checks(state, chk, inp):
+def final_checks(state, chk, inp, bind_last=None):
     """on the databases a history ends with: every listed series is retrievable and holds the predicted data; caching
-    semantics; iteration and containment agree with the listing"""
-    A, B, keep, exp = state
+    semantics; iteration and containment agree with the listing; `bind_last` = the Lean binding model's prediction after the
+    last operation: what is read under every key has the predicted origin"""
+    A, B, keep, exp = state[:4]
+    paths = state[5] if len(state) > 5 else None
+    pred = {w: {unhx(k): ori for k, _, ori in bind_last[w]} for w in ("A", "B")} if bind_last else None
     for w, db in (("A", A), ("B", B)):
         ks = list(db.register_keys)
         for n, k in enumerate(ks):
@@ -325,6 +463,12 @@ def final_checks(state, chk, inp):
             if prov is not None and not same_data(ts, prov):
                 chk.fail(T_DATA, dict(inp, db=w, key=k, how="get(name=key, store=False) after the history"), describe(prov),
                          dict(t=list(map(float, ts.t)), x=list(map(float, ts.x))), clause="data")
+            if pred is not None and k in pred[w]:
+                chk.count("db.bind:read")
+                if identify(ts, paths) != pred[w][k].lstrip("~") and not pred.get("reported"):
+                    pred["reported"] = True         # one per history
+                    chk.disagree("db.bind", dict(inp, db=w, key=k, what="origin of the data read by get(name=key, store=False) after the history"),
+                                 pred[w][k], identify(ts, paths))
             if n >= 4:
                 continue
             if k not in db:
@@ -415,20 +559,90 @@ def out_of_file_order(spec, ops):
     return False
 
 
-def fmt_execute(spec, path, ops, chk, inp):
+def fmt_origin(spec, path, j):
+    """origin text of record j of the second family's file: by name for .h5 .mat .tdms, by record number otherwise"""
+    if j is None:
+        return "?"
+    return "N:%s:%s" % (hx(path), hx(spec["names"][j])) if spec["fmt"] in NAME_ADDRESSED else "R:%s:%d" % (hx(path), j + 1)
+
+
+def fmt_identify(spec, path, t, x):
+    """which record of the file do these DATA come from (value = 1000*(file+1) + 10*(record+1) + sample/4, own time array per
+    record where the format has one); '?' if none"""
+    from . import c01
+    try:
+        x = np.asarray(x, dtype=float)
+        if x.size == 0:
+            return "?"
+        j = int((float(x[0]) % 1000) // 10) - 1
+        if not 0 <= j < len(spec["names"]):
+            return "?"
+        _, wt, wx = c01.stored(spec, j)
+        if spec["fmt"] == "asc":
+            wt, wx = wt[1:], wx[1:]          # known finding F15 (C01)
+        tol = c01.tol_of(spec["fmt"])
+        return fmt_origin(spec, path, j) if near(t, wt, tol) and near(x, wx, tol) else "?"
+    except Exception:
+        return "?"
+
+
+def fmt_encode(spec, path, ops):
+    """a history of the second family as operations of the Lean model (database A; the fresh database that `copy` / `update`
+    fill is the model's B: `TsDB().update(db, …)` registers what `db.copy(…)` registers); a request by index list is modelled by
+    one retrieval per index.  Returns the `db.bind` line and, per observed operation, the model operations that stand for it."""
+    sep = os.path.sep
+    toks, opmap = [], []
+    for op in ops:
+        kind, first = op[0], len(toks)
+        if kind == "load":
+            toks.append("load A %s %d %d %s" % (hx(path), spec["fmt"] not in ("h5", "mat"), op[1], hxlist(spec["names"])))
+        elif kind == "get":
+            how, sel, store = op[2], op[3], op[4]
+            if how == "ind":
+                toks += ["geti A %d %d" % (i, store) for i in sel]
+            else:
+                toks.append("getm A %s %d" % (hxlist([path + sep + nm for nm in sel] if how == "keys" else list(sel)), store))
+        elif kind == "get1":
+            toks.append("getm A %s %d" % (hx(op[1]), op[2]))
+        elif kind in ("copy", "update"):
+            toks.append("copy %s %d" % ("none" if op[1] is None else hxlist(op[1]), op[2]))
+        elif kind == "iter":
+            toks.append("getm A none 1")
+        elif kind == "clear":
+            toks.append("clear A %s" % hx(op[1]))
+        elif kind == "rename":
+            toks.append("rename A %s %s" % (hx(op[1]), hx(op[2])))
+        opmap.append(list(range(first, len(toks))))
+    return "db.bind " + " ; ".join(toks), opmap
+
+
+def fmt_execute(spec, path, ops, chk, inp, bind=None):
     from qats import TsDB
     from . import c01
     fmt = spec["fmt"]
     tol = c01.tol_of(fmt)
     sep = os.path.sep
     cur = {}                     # plain dictionary model: registered name -> (t, x)
+    rec = {}                     # … and registered name -> record of the file (position j)
     for j in range(len(spec["names"])):
         nm, t, x = c01.stored(spec, j)
         if fmt == "asc":
             t, x = t[1:], x[1:]  # known finding F15 (C01): every .asc read lacks the first sample; compared modulo that shift
         cur[nm] = (list(t), list(x))
+        rec[nm] = j
+
+    def observe(d, with_rec):
+        """binding observation of a database: per key the dictionary model's record and the record the cached data identify"""
+        rows = []
+        for k in d.register_keys:
+            j = rec.get(k[len(path) + 1:])
+            v = d.register.get(k)
+            rows.append((hx(k), ("?" if j is None else "F:%s:%d:%s" % (hx(path), j + 1, hx(spec["names"][j]))) if with_rec else None,
+                         fmt_identify(spec, path, v.t, v.x) if v is not None else "~" + fmt_origin(spec, path, j)))
+        return rows
     db = TsDB()
     reported = set()
+    obs = []                     # binding observations, one per executed operation (bind = (parsed `db.bind` reply, opmap))
 
     def bad(text, n, expected, observed, clause, **kw):
         if clause in reported:
@@ -461,6 +675,7 @@ def fmt_execute(spec, path, ops, chk, inp):
         kind = op[0]
         cached = set(k for k, v in db.register.items() if v is not None)
         got, store = [], None       # (key | None, series)
+        bout, bnew = None, None     # binding observation: returned (key, record of the data); the database copy / update filled
         try:
             if kind == "load":
                 db.load(path, read=op[1])
@@ -479,8 +694,10 @@ def fmt_execute(spec, path, ops, chk, inp):
                 elif api == "getl":
                     got = [(None, ts) for ts in db.getl(store=store, **kw)]
                 else:
+                    bout = []
                     for k, (t, x) in db.getda(store=store, fullkey=True, **kw).items():
                         check(n, None, t, x, k, label)
+                        bout.append((hx(k), fmt_identify(spec, path, t, x)))
                 for k, ts in got:
                     check(n, ts.name, ts.t, ts.x, k, label)
             elif kind == "get1":
@@ -497,6 +714,7 @@ def fmt_execute(spec, path, ops, chk, inp):
                     new = TsDB()
                     new.update(db, names=op[1], shallow=not op[2])
                 check_db(n, new, "%s(names=%s, shallow=%s): the new database" % (kind, op[1], not op[2]))
+                bnew = observe(new, False)
                 if any(v is None for v in new.register.values()):
                     bad(T_DATA, n, "series", "None in the register of the new database", "fmt-data")
             elif kind == "iter":
@@ -506,12 +724,15 @@ def fmt_execute(spec, path, ops, chk, inp):
                     bad(T_COHERENT, n, "iteration = listing order", probs, "iteration")
                 for k, ts in zip(ks, items):
                     check(n, ts.name, ts.t, ts.x, k, "iteration")
+                bout = [(hx(k), fmt_identify(spec, path, ts.t, ts.x)) for k, ts in zip(ks, items)]
             elif kind == "clear":
                 db.clear(names=op[1], display=False)
                 cur.pop(op[1], None)
+                rec.pop(op[1], None)
             elif kind == "rename":
                 db.rename(op[1], op[2])
                 cur[op[2]] = cur.pop(op[1])
+                rec[op[2]] = rec.pop(op[1])
         except Exception as e:
             if kind in ("get", "get1", "iter", "copy", "update"):
                 bad("every listed series is retrievable", n, "series", err_enum(e) + ": " + str(e)[:100], "retrievable")
@@ -529,6 +750,14 @@ def fmt_execute(spec, path, ops, chk, inp):
         if sorted(db.register_keys) != sorted(path + sep + nm for nm in cur):
             bad(T_COHERENT + " (the listing is what the dictionary model holds)", n, sorted(cur), list(db.register_keys), "fmt-keys")
         check_db(n, db, "cached in the register")
+        if bind is not None:
+            if bout is None and kind in ("get", "get1"):
+                bout = [(hx(k if k is not None else path + sep + ts.name), fmt_identify(spec, path, ts.t, ts.x)) for k, ts in got]
+            obs.append(dict(out=bout, A=observe(db, True), B=bnew))
+    pred = None
+    if bind is not None:            # the whole history was executed: compare with the Lean binding model's prediction
+        pred = compare_bind(bind[0], obs, chk, inp, bind[1])
+        pred = {unhx(k): ori for k, _, ori in pred["A"]} if pred else None
     for k in list(db.register_keys):
         try:
             ts = db.get(name=k, store=False)
@@ -536,6 +765,13 @@ def fmt_execute(spec, path, ops, chk, inp):
             bad("every listed series is retrievable", len(ops) - 1, "series", err_enum(e) + ": " + str(e)[:100], "retrievable", key=k)
             continue
         check(len(ops) - 1, ts.name, ts.t, ts.x, k, "get(name=key, store=False) after the history")
+        if pred is not None and k in pred:
+            chk.count("db.bind:read")
+            if fmt_identify(spec, path, ts.t, ts.x) != pred[k].lstrip("~") and "read" not in reported:
+                reported.add("read")
+                chk.disagree("db.bind", dict(kind="fmt", spec=spec, ops=ops, key=k,
+                                             what="origin of the data read by get(name=key, store=False) after the history"),
+                             pred[k], fmt_identify(spec, path, ts.t, ts.x))
 
 
 def rename_unread(spec, path, chk):
@@ -556,12 +792,20 @@ def rename_unread(spec, path, chk):
 def run(chk):
     import itertools
     chk.extra["rule"] = RULE
-    chk.assumptions += ["series objects are abstract identities in the model; their data is followed by a plain dictionary model in "
-                        "the harness (key -> generated file column / in-memory series)",
+    chk.assumptions += ["series objects are abstract identities in the registry model; the Lean binding model (Qats.Binding) follows "
+                        "where the content of every object comes from (record number / data set name / added series / deep copy) and "
+                        "which record every key is registered for; its prediction is compared per operation with a plain dictionary "
+                        "model in the harness (key -> generated file column / in-memory series) and with the implementation (the "
+                        "generated data identify the record)",
+                        "second family, binding model: `TsDB().update(db, …)` is modelled by `db.copy(…)` (same registrations), a request "
+                        "by index list by one retrieval per index",
                         "names lists of getm/update/copy contain one pattern or several distinct exact names, so that no key is "
                         "selected twice (overlapping patterns make `_read` construct a series twice)",
                         "`for ts in db` is modelled by its registry effect, getm(names=None, store=True)"]
-    chk.partial += [".asc files of the second family are compared modulo the known finding F15 of C01 (first sample missing)"]
+    chk.partial += [".asc files of the second family are compared modulo the known finding F15 of C01 (first sample missing)",
+                    "binding theorems: the invariant is proved for every operation except rename of a not-yet-read series of a "
+                    "name-addressed file (binding_step_partial / binding_run_partial; full strength for index-addressed files: "
+                    "binding_run_indexed); the unrestricted statement is refuted by f17_counterexample / f17_swap_counterexample"]
     # F17: only name-addressed formats, only the renamed key
     chk.matchers["F17"] = lambda f: f.get("clause") == "f17" and f.get("fmt") in ("h5", "mat", "tdms") and \
         f["input"]["key"].endswith("renamed_series")
@@ -580,12 +824,14 @@ def run(chk):
             for L in (1, 2, 3):
                 hist += [list(h) for h in itertools.product(alpha, repeat=L)]
         lines = [encode(h, paths) for h in hist]
-        outs = drv.run(lines)
+        outs = drv.run(lines + [encode(h, paths, "db.bind") for h in hist])
+        outs, bouts = outs[:len(hist)], outs[len(hist):]
         files = {rel: names for rel, names in FILES}
-        for h, o in zip(hist, outs):
+        for h, o, bo in zip(hist, outs, bouts):
             inp = dict(ops=[list(op) for op in h], files=files)
             chk.count("db.run")
             im, state = execute(h, paths, chk, inp)
+            bind_last = compare_bind(parse_bind(bo), state[4], chk, inp)
             a, b = renumber(o), renumber(im)
             if a != b:
                 ao, bo = a.split(" ; "), b.split(" ; ")
@@ -602,12 +848,13 @@ def run(chk):
             for m in set(x.split(" #")[0] for x in im[3:].split(" ; ")):
                 chk.dist("out:" + (m.split()[0] + (" " + m.split()[1] if m.startswith("err") else "")))
             # every listed series is retrievable and holds the predicted data; caching semantics; iteration
-            final_checks(state, chk, inp)
+            final_checks(state, chk, inp, bind_last)
             if len(chk.samples) < 3 and 4 <= len(h) <= 6:
                 chk.sample(dict(ops=[list(map(str, op)) for op in h], model_reply=a[:400]))
         # ---- second family: one file per format, multi-series requests out of file order -----------------------------------------
         from . import c01
         nh = 12 if chk.quick else 80
+        fam2 = []
         for fi, fmt in enumerate(c01.FORMATS):
             spec = c01.gen_spec(rng, 20 + fi, fmt, k=rng.choice([3, 4, 5]), n=rng.randint(3, 5))
             path = c01.write_file(fl.root, spec)
@@ -619,13 +866,15 @@ def run(chk):
                   [["load", False], ["get", "getl", "ind", rev, False], ["get", "getd", "keys", [spec["names"][i] for i in rev], True]],
                   [["load", False], ["get1", spec["names"][k // 2], True], ["get", "getda", "ind", rev, True], ["copy", None, True]]]
             hs += [gen_fmt_history(rng, spec) for _ in range(nh)]
-            for ops in hs:
-                chk.count("fmt-history")
-                fmt_execute(spec, path, ops, chk, dict(kind="fmt", spec=spec, ops=ops))
-                for op in ops:
-                    chk.dist("fmt-op:" + op[0] + (":" + op[1] + ":" + op[2] if op[0] == "get" else ""))
-                if out_of_file_order(spec, ops):
-                    chk.nontriv((fmt, repr(ops)))
+            fam2 += [(fmt, spec, path, ops) + fmt_encode(spec, path, ops) for ops in hs]
+        replies = drv.run([f[4] for f in fam2])
+        for (fmt, spec, path, ops, _, opmap), reply in zip(fam2, replies):
+            chk.count("fmt-history")
+            fmt_execute(spec, path, ops, chk, dict(kind="fmt", spec=spec, ops=ops), bind=(parse_bind(reply), opmap))
+            for op in ops:
+                chk.dist("fmt-op:" + op[0] + (":" + op[1] + ":" + op[2] if op[0] == "get" else ""))
+            if out_of_file_order(spec, ops):
+                chk.nontriv((fmt, repr(ops)))
         # ---- every listed series is retrievable, also after renaming a not-yet-read series of a name-addressed file (F17) ------------
         for fmt in ("h5", "ts", "csv"):
             spec = c01.gen_spec(rng, 7, fmt, k=2, n=4, variant=0)
@@ -644,21 +893,31 @@ def replay(rp):
             from . import c01
             path = c01.write_file(fl.root, inp["spec"])
             if kind == "fmt":
-                fmt_execute(inp["spec"], path, inp["ops"], chk, dict(kind="fmt", spec=inp["spec"], ops=inp["ops"]))
+                try:
+                    line, opmap = fmt_encode(inp["spec"], path, inp["ops"])
+                    bind = (parse_bind(core.Driver().run([line])[0]), opmap)
+                except Exception as e:                 # the oracles do not need the model
+                    print("(model not available: %s)" % e)
+                    bind = None
+                fmt_execute(inp["spec"], path, inp["ops"], chk, dict(kind="fmt", spec=inp["spec"], ops=inp["ops"]), bind=bind)
             else:
                 rename_unread(inp["spec"], path, chk)
         else:
             paths = make_files(fl)
             ops = [tuple(o) for o in inp["ops"]]
             try:
-                o = core.Driver().run([encode(ops, paths)])[0]
+                o, bo = core.Driver().run([encode(ops, paths), encode(ops, paths, "db.bind")])
             except Exception as e:                     # the oracles do not need the model
                 print("(model not available: %s)" % e)
-                o = None
+                o = bo = None
             im, state = execute(ops, paths, chk, dict(ops=inp["ops"]))
-            final_checks(state, chk, dict(ops=inp["ops"]))
+            bind_last = compare_bind(parse_bind(bo), state[4], chk, dict(ops=inp["ops"])) if bo is not None else None
+            final_checks(state, chk, dict(ops=inp["ops"]), bind_last)
             if o is not None and renumber(o) != renumber(im):
                 print("model and implementation differ")
+        for d in getattr(chk, "disagreements", []):
+            print("DIFFERS (%s):" % d.get("stream"), str(d.get("input", {}).get("what", ""))[:120], "| model", str(d.get("model"))[:300],
+                  "| implementation", str(d.get("impl"))[:300])
         for f in chk.failing:
             print("FAILS:", f["oracle"], "| expected", str(f["expected"])[:200], "| observed", str(f["observed"])[:300])
         print("replay: %d failing clause(s)" % len(chk.failing))
